@@ -1,7 +1,7 @@
 Require Import OPC.gen.GenParams OPC.Uni OPC.Refs OPC.RefsThm.
 From Coq Require Import NArith List Bool. Import ListNotations. Open Scope N_scope.
 
-(* ---- regenerated facts: every Parameter field that add_parameters reads is copied by parameter_from_data; the model reads
+(* ---- regenerated facts: every field of oai.Parameter, that add_parameters reads is copied by parameter_from_data; the model reads
    exactly those fields; a schema reference may only change name / python_name / required / default *)
 Theorem C20_gen_params_facts :
   gen_params_known = true /\ subsetN gen_param_reads gen_param_copied = true /\
